@@ -190,6 +190,10 @@ class FileStorageFormatter:
                 return _file.read(h.plen), h.tid, back, h.tloc
             if h.back == 0 and not fail:
                 return None, h.tid, back, h.tloc
+            if h.back >= back:
+                # Back pointers lead backwards.  In a damaged file one
+                # that does not can close a cycle.
+                raise CorruptedDataError(oid, pos=back)
             back = h.back
 
     def _loadBackTxn(self, oid, back, fail=True):
